@@ -49,7 +49,12 @@ RULE = ("each run draws one selective element with options (ToCSV, Write, Render
         "output.filetype, a non-dictionary under output / histogram), a completion plan for child "
         "processes and 4 (thorough 12) merge schedules of A and B; every schedule is run on a "
         "fresh simulated disk with the same initial files and compared with the run on A alone; "
-        "non-trivial = A and B both non-empty; distinct = distinct abstracted event-kind sequences")
+        "non-trivial = A and B both non-empty; distinct = distinct abstracted event-kind sequences. "
+        "Since the seeded rounds B also holds: one-shot iterators, unprintable objects, bytes, contexts "
+        "that are defaultdicts, histograms whose bins carry contexts, options the element reads for "
+        "selected values (duplicate_last_bin), near-miss file types, a file extension without a "
+        "file type, a foreign object that opens its file when its write attribute is asked for; "
+        "child processes may fail by plan; when nothing is selected every access log must be empty")
 REAL = ["lena.output.ToCSV", "lena.output.Write", "lena.output.RenderLaTeX (jinja2 through a "
         "FunctionLoader on the simulated disk)", "lena.output.LaTeXToPDF", "lena.output.PDFToPNG",
         "lena.structures.HistToGraph", "lena.structures.MapBins", "lena.structures.IterateBins",
